@@ -1951,7 +1951,11 @@ fn c11(ctx: &mut Ctx) {
                 let r = guarded(|| PC::check(&c.vk, &comms, &ops[a].z, ops[a].values.iter().cloned(), &proof, &mut sp, None));
                 let (vros, _) = ro_take();
                 let vxis: Vec<Fr> = sp.challenges()[before..].to_vec();
-                if matches!(r, Ok(Ok(true))) {
+                // the property exempts constant polynomials (the zero polynomial's transcript does not
+                // depend on the sponge at all): the expectation is attached to openings of non-constant
+                // polynomials only; the model is compared in every case
+                let nonconst_a = ops[a].idx.iter().all(|&k| c.polys[k].degree() >= 1);
+                if nonconst_a && matches!(r, Ok(Ok(true))) {
                     ctx.rep.expect_fail(&id, "ipa/accepted-on-other-transcript/position", &format!("proof of op {} accepted at the sponge position of op {}", a, b), c.replay(&id, ctx.seed, "displaced proof"));
                 }
                 let mut e = rng_for(11, &id, 0);
@@ -1966,7 +1970,7 @@ fn c11(ctx: &mut Ctx) {
                     Ok(Err(e)) => ImplOutcome::Refuse(err_kind(e)),
                     Err(a) => ImplOutcome::Refuse(a.clone()),
                 });
-                ctx.rep.count("ipa/history-displaced");
+                ctx.rep.count(if nonconst_a { "ipa/history-displaced-nonconstant" } else { "ipa/history-displaced-constant" });
             }
         }
         // the same history with a different pre-state: every proof must be rejected
@@ -1978,7 +1982,7 @@ fn c11(ctx: &mut Ctx) {
             let comms = comms_from(&csub);
             let proof = op.ps.to_proof();
             let r = guarded(|| PC::check(&c.vk, &comms, &op.z, op.values.iter().cloned(), &proof, &mut sp_o, None));
-            if matches!(r, Ok(Ok(true))) {
+            if op.idx.iter().all(|&k| c.polys[k].degree() >= 1) && matches!(r, Ok(Ok(true))) {
                 ctx.rep.expect_fail(&id0, "ipa/accepted-on-other-transcript/pre-state", "proof accepted against a sponge with different prior absorbs", c.replay(&id0, ctx.seed, "other pre-state"));
             }
         }
@@ -2071,9 +2075,11 @@ fn c17(ctx: &mut Ctx) {
             cx[1].label = "other".to_string();
             open_variant(ctx, "label-renamed", c.polys.clone(), cx, c.rands.clone(), true, true);
             // a shifted part that does not belong / is missing
-            let mut cx = cs.clone();
-            cx[1].s = Some(Fr::rand(&mut rng));
-            open_variant(ctx, "shifted-added", c.polys.clone(), cx, c.rands.clone(), true, true);
+            if cs[1].s.is_none() {
+                let mut cx = cs.clone();
+                cx[1].s = Some(Fr::rand(&mut rng));
+                open_variant(ctx, "shifted-added", c.polys.clone(), cx, c.rands.clone(), true, true);
+            }
             if cs[0].s.is_some() {
                 let mut cx = cs.clone();
                 cx[0].s = None;
